@@ -216,8 +216,8 @@ window._content_generation_table = [
 
   dict(
     names = ("blackman",),
-    formula = "(1 - alpha) / 2 + alpha / 2 * cos(4 * pi * n / size)"
-              " - .5 * cos(2 * pi * n / size)",
+    formula = ".5 * (1 - cos(2 * pi * n / size))"
+              " - alpha / 2 * (1 - cos(4 * pi * n / size))",
     math = r"\frac{1 - \alpha}{2} "
            r" - \frac{1}{2} \cos \left( \frac{2 \pi n}{size} \right)"
            r" + \frac{\alpha}{2} \cos \left( \frac{4 \pi n}{size} \right)",
